@@ -351,6 +351,13 @@ def run_fuzz(ctx, pid, runs, seeds, max_len=256, label='fuzz', timeout=3600, tok
     import shutil
     import subprocess
     import tempfile
+    try:
+        import atheris  # noqa: F401
+    except ImportError:
+        # MANIFEST.setup_cmd installs atheris into /verif/.deps; without it the campaign is skipped and said so
+        ctx.notes.append(f'{label}: atheris is not importable (setup_cmd not run?) - coverage-guided campaign skipped')
+        ctx.extra[f'{label}_skipped'] = 'atheris not installed'
+        return 0
     tmp = tempfile.mkdtemp(prefix='mido_fuzz_')
     procs = []
     try:
